@@ -2,11 +2,11 @@ INIT InitP
 NEXT NextP
 VIEW View
 CONSTANTS
-  Chans = {"1a", "1b", "2a"}
-  ChanSeqs <- MC_ChanSeqsQuick
+  Chans = {"1a", "1b"}
+  ChanSeqs <- MC_ChanSeqsBurst
   Subs = {1, 2}
   MaxEv = 2
-  AbandonSubs = {1}
+  AbandonSubs = {}
   QMaxes = {0, 1}
-  Bursts = FALSE
+  Bursts = TRUE
 CHECK_DEADLOCK FALSE
